@@ -7,7 +7,7 @@ from props import common as K
 ID = 'C06'
 FUNCTIONS = ['scripteval._EvalScript', 'scripteval.EvalScript', 'scripteval.VerifyScript', 'scripteval._CastToBigNum', 'scripteval._CastToBool',
              'scripteval._UnaryOp', 'scripteval._BinOp', 'scripteval._CheckSig', 'scripteval._CheckMultiSig', 'script.FindAndDelete',
-             'script.CScript.raw_iter', '_bignum.bn2vch/vch2bn', 'script.RawSignatureHash (inside CHECKSIG)', 'contrib.ripemd160 (kernel harness)']
+             'script.CScript.raw_iter', '_bignum.bn2vch/vch2bn', 'script.RawSignatureHash (inside CHECKSIG)', 'contrib.ripemd160.compress (lifted round body, prelude, tail) and ripemd160 (padding/splitting/output)']
 ASSUMPTIONS = ['ECDSA verification is the oracle predicate V(pubkey, sighash, signature) on both sides (empty signature => false); the reference computes its own legacy sighash pre-image',
                'SHA-1 / SHA-256 / RIPEMD-160 opcodes: uninterpreted functions on both sides (stack plumbing is what is compared)',
                'double-SHA256 of the sighash pre-image is an uninterpreted function (digest equality through pre-image equality)']
@@ -268,7 +268,86 @@ def h_p2sh(ctx, redeem_ops, sig_prefix, flags, match):
     ctx.check(lib_ok == ref_ok, 'verify: accepts exactly when the reference accepts', detail='library %s, reference %s' % (lib_ok, ref_ok))
 
 
-HARNESSES = {'step': h_step, 'prog': h_prog, 'prog2': h_prog2, 'limit': h_limit, 'flow': h_flow, 'sig': h_sig, 'verify': h_verify, 'p2sh': h_p2sh}
+def h_ripemd_step(ctx, j0, j1):
+    """lifted body of the 80-round loop of contrib.ripemd160.compress == the specification's round, for arbitrary state and message block;
+    congruence modulo 2^32 is the invariant (the library keeps unmasked sums)"""
+    from refs import ref_ripemd160 as RR
+    if not ctx.symbolic:
+        # concrete twin: the whole function on the recorded block against the reference (every message exercises all 80 rounds)
+        blk = ctx.bytes('block', 64)
+        R = ctx.mod('bitcoin.core.contrib.ripemd160')
+        ctx.check(R.ripemd160(blk) == RR.ripemd160(ctx, blk) and R.ripemd160(blk[:7]) == RR.ripemd160(ctx, blk[:7]),
+                  'ripemd160: lifted round == specification round (mod 2^32)')
+        return
+    from symx import lift
+    names = ['al', 'bl', 'cl', 'dl', 'el', 'ar', 'br', 'cr', 'dr', 'er']
+    step, info = lift.lift_for_body(ctx.lib, 'bitcoin.core.contrib.ripemd160', 'compress', names, extra_args=['h0', 'h1', 'h2', 'h3', 'h4', 'block'])
+    M = 0xffffffff
+    h = [ctx.int('h%d' % i, 0, M) for i in range(5)]
+    block = ctx.bytes('block', 64)
+    # inductive size invariant of the unmasked state: a, d, e < 2^32 and b, c < 2^33 on both lines
+    lim = {'a': 1 << 32, 'b': 1 << 33, 'c': 1 << 33, 'd': 1 << 32, 'e': 1 << 32}
+    st = [ctx.int('s_' + n, 0, lim[n[0]] - 1) for n in names]
+    x = [block[4 * i] | (block[4 * i + 1] << 8) | (block[4 * i + 2] << 16) | (block[4 * i + 3] << 24) for i in range(16)]
+    for j in range(j0, j1):
+        got = step(h[0], h[1], h[2], h[3], h[4], block, *st, j)
+        al, bl, cl, dl, el, ar, br, cr, dr, er = [v & M for v in st]
+        t = (RR._rol((al + RR._f(j, bl, cl, dl) + x[RR.R_L[j]] + RR.K_L[j // 16]) & M, RR.S_L[j]) + el) & M
+        wl = [el, t, bl, RR._rol(cl, 10), dl]
+        t = (RR._rol((ar + RR._f(79 - j, br, cr, dr) + x[RR.R_R[j]] + RR.K_R[j // 16]) & M, RR.S_R[j]) + er) & M
+        wr = [er, t, br, RR._rol(cr, 10), dr]
+        want = wl + wr
+        ctx.check(ctx.and_(*[(g & M) == w for g, w in zip(got, want)]), 'ripemd160: lifted round == specification round (mod 2^32)', detail='round %d' % j)
+        ctx.check(ctx.and_(*[ctx.and_(g >= 0, g < lim[n[0]]) for g, n in zip(got, names)]), 'ripemd160: size invariant of the unmasked state is inductive')
+    if j0 == 0:
+        # prelude (state initialisation) and tail (feed-forward) of compress
+        fin = step.final(h[0], h[1], h[2], h[3], h[4], block, *st)
+        al, bl, cl, dl, el, ar, br, cr, dr, er = [v & M for v in st]
+        want = [(h[1] + cl + dr) & M, (h[2] + dl + er) & M, (h[3] + el + ar) & M, (h[4] + al + br) & M, (h[0] + bl + cr) & M]
+        ctx.check(ctx.and_(*[(g & M) == w for g, w in zip(fin, want)]), 'ripemd160: feed-forward == specification (mod 2^32)')
+        ctx.check(any('al, bl, cl, dl, el = (h0, h1, h2, h3, h4)' in p.replace('(', '(').replace('  ', ' ') or 'al, bl, cl, dl, el = h0, h1, h2, h3, h4' in p
+                      for p in info['prelude']), 'ripemd160: both lines start from the chaining value')
+
+
+def h_ripemd_glue(ctx, n):
+    """padding, block splitting and output conversion of ripemd160(): compress replaced by a recorder (symbolic run) /
+    whole function against the reference (concrete twin)"""
+    from refs import ref_ripemd160 as RR
+    R = ctx.mod('bitcoin.core.contrib.ripemd160')
+    msg = ctx.bytes('m', n)
+    if not ctx.symbolic:
+        ctx.check(R.ripemd160(msg) == RR.ripemd160(ctx, msg), 'ripemd160 == reference (concrete twin)')
+        return
+    blocks = []
+    orig = R.compress
+
+    def rec(h0, h1, h2, h3, h4, block):
+        blocks.append(block)
+        return (h1, h2, h3, h4, h0 + len(blocks))
+    R.compress = rec
+    ctx.set_state('ripemd160', 'code')
+    try:
+        out = R.ripemd160(msg)
+    finally:
+        R.compress = orig
+    data = [msg[i] for i in range(n)] + [0x80] + [0] * ((55 - n) % 64) + list((8 * n).to_bytes(8, 'little'))
+    want = [data[o:o + 64] for o in range(0, len(data), 64)]
+    ok = len(blocks) == len(want) and all(len(b) == 64 for b in blocks)
+    ctx.check(ok, 'ripemd160: number and size of compressed blocks')
+    if ok:
+        ctx.check(ctx.and_(*[b == ctx.bytes_of(w) for b, w in zip(blocks, want)]), 'ripemd160: padded blocks == specification')
+    # output: little-endian words of the final state (here: the recorder's rotation of the initial value)
+    st = [0x67452301, 0xefcdab89, 0x98badcfe, 0x10325476, 0xc3d2e1f0]
+    for k in range(len(want)):
+        st = [st[1], st[2], st[3], st[4], st[0] + k + 1]
+    exp = []
+    for w in st:
+        w &= 0xffffffff
+        exp += [w & 0xff, (w >> 8) & 0xff, (w >> 16) & 0xff, (w >> 24) & 0xff]
+    ctx.check(out == ctx.bytes_of(exp), 'ripemd160: output is the little-endian state')
+
+
+HARNESSES = {'ripemd_step': h_ripemd_step, 'ripemd_glue': h_ripemd_glue, 'step': h_step, 'prog': h_prog, 'prog2': h_prog2, 'limit': h_limit, 'flow': h_flow, 'sig': h_sig, 'verify': h_verify, 'p2sh': h_p2sh}
 
 OPBANDS = [(0x00, 0x4e), (0x4f, 0x60), (0x61, 0x6a), (0x6b, 0x7d), (0x7e, 0x8a), (0x8b, 0x92), (0x93, 0xa5), (0xa6, 0xaa), (0xab, 0xaf), (0xb0, 0xff)]
 
@@ -326,6 +405,11 @@ def instances(tier):
                      ('stack_push', (998, 999, 1000)), ('stack_smallint', (999, 1000)), ('stack_dup', (998, 999, 1000)), ('stack_alt', (997, 998, 999))):
         for n in ns:
             out.append(dict(h='limit', p=dict(kind=kind, n=n), max_seconds=900))
+    # RIPEMD-160 as code: 80 round lemmas + glue (padding / splitting / output) for message lengths 0..130
+    for j0 in range(0, 80, 10):
+        out.append(dict(h='ripemd_step', p=dict(j0=j0, j1=j0 + 10), max_seconds=1500))
+    for n in ([0, 1, 55, 56, 63, 64, 65, 119, 120, 128] if tier == 'quick' else range(0, 131)):
+        out.append(dict(h='ripemd_glue', p=dict(n=n)))
     # signatures
     for sl in (0, 1, 9):
         for op in (0xac, 0xad):
